@@ -13,6 +13,7 @@ import (
 	"encoding/json"
 	"fmt"
 	"hash/fnv"
+	"math/bits"
 	"os"
 	"runtime"
 	"runtime/debug"
@@ -186,6 +187,20 @@ func (r *Rng) EdgeLimb(c uint64) uint64 {
 		return ^uint64(0) - uint64(r.Intn(64))
 	case 15:
 		return uint64(r.Intn(64))
+	case 16, 17:
+		// x with x*c just below / just above a multiple of 2^64: the carry
+		// out of lo(x*c)+hi(previous limb * c) that neither random nor
+		// 0/1/2^64-1 limbs produce
+		if c > 1 {
+			j := 1 + r.U64()%(c-1)      // 1 <= j < c
+			q, _ := bits.Div64(j, 0, c) // floor(j*2^64 / c)
+			d := uint64(r.Intn(5))
+			if r.Bool() {
+				return q - d
+			}
+			return q + d
+		}
+		return r.U64()
 	default:
 		return r.U64()
 	}
